@@ -40,6 +40,9 @@ func harnessFuncs() vuego.FuncMap {
 
 // NewEngine constructs the engine of a run over fs.
 func NewEngine(e EngineSpec, sfs *SimFS) *Engine {
+	// construction reads (theme.yml, data/*.yml, components/) are attributed to a reserved operation index:
+	// faults are addressed to render operations, never to the construction of the engine
+	sfs.SetOp(maxOps - 6)
 	view := sfs.View(e)
 	var opts []vuego.LoadOption
 	if e.Funcs {
